@@ -1,18 +1,18 @@
 SPECIFICATION Spec
 CONSTANTS
   Obj = {1, 2, 3, 4}
-  MaxSteps = 7
+  MaxSteps = 5
   TlsRecurse = TRUE
   SweepCoop = TRUE
   Emit = FALSE
   ClearOnProcess = TRUE
-  Spawners = FALSE
+  Spawners = TRUE
   NestedSweep = FALSE
   TeardownLoop = TRUE
   Registers = FALSE
   FlushRegs = TRUE
-  Holders = FALSE
-  RootCountOnce = FALSE
+  Holders = TRUE
+  RootCountOnce = TRUE
   StopOps = FALSE
 VIEW view
 ACTION_CONSTRAINT EmitEdge
